@@ -97,8 +97,15 @@ def parse_table(s):
                     t.bad = True
                     continue
                 i, _, k = x.partition("/")
-                nodes.append((int(i), int(k)))
-            t.buckets.append((int(cst), nodes))
+                try:
+                    nodes.append((int(i), int(k)))
+                except ValueError:
+                    t.bad = True        # the harness's own inconsistency marker / a cyclic chain
+            try:
+                t.buckets.append((int(cst), nodes))
+            except ValueError:
+                t.bad = True
+                t.buckets.append((0, nodes))
     return t
 
 
